@@ -481,3 +481,20 @@ MUTANTS += [
  {"id": "c06-addbk-overwrites", "prop": "C06", "file": "adcgen/sympy_objects.py", "old": "        elif self.bra_ket_sym is S.Zero:\n            return self.__class__(", "new": "        elif self.bra_ket_sym is not S.One:\n            return self.__class__("},
  {"id": "c06-addbk-swapped-indices", "prop": "C06", "file": "adcgen/sympy_objects.py", "old": "            return self.__class__(self.symbol, self.upper, self.lower,\n                                  bra_ket_sym)", "new": "            return self.__class__(self.symbol, self.lower, self.upper,\n                                  bra_ket_sym)"},
 ]
+_OC = "adcgen/generate_code/optimize_contractions.py"
+MUTANTS += [
+ {"id": "c16-rank-keeps-worse", "prop": "C16", "file": _OC, "old": "if optimal_scaling is None or scaling < optimal_scaling:", "new": "if optimal_scaling is None or scaling > optimal_scaling:"},
+ {"id": "c16-rank-min-instead-of-max", "prop": "C16", "file": _OC, "old": "                [max(comp_values), comp_values.count(max(comp_values))]", "new": "                [min(comp_values), comp_values.count(max(comp_values))]"},
+ {"id": "c16-rank-memory-first", "prop": "C16", "file": _OC, "old": "        scaling.extend(mem)\n", "new": "        mem.extend(scaling)\n        scaling = mem\n"},
+ {"id": "c16-rank-memory-ignored", "prop": "C16", "file": _OC, "old": "        scaling.extend(mem)\n", "new": ""},
+ {"id": "c16-rank-first-scheme-only", "prop": "C16", "file": _OC, "old": "if optimal_scaling is None or scaling < optimal_scaling:", "new": "if optimal_scaling is None:"},
+ {"id": "c16-extract-ignores-exponent", "prop": "C16", "file": _OC, "old": "        name, indices = obj.longname(), obj.idx\n        relevant_obj_names.extend(name for _ in range(exp))\n        relevant_obj_indices.extend(indices for _ in range(exp))\n    assert len(relevant_obj_names) == len(relevant_obj_indices)\n\n    if not relevant_obj_names:", "new": "        name, indices = obj.longname(), obj.idx\n        relevant_obj_names.append(name)\n        relevant_obj_indices.append(indices)\n    assert len(relevant_obj_names) == len(relevant_obj_indices)\n\n    if not relevant_obj_names:"},
+ {"id": "c16-extract-skips-deltas", "prop": "C16", "file": _OC, "old": "        elif isinstance(base, Symbol):  # skip symbolic prefactor\n            continue\n        elif not isinstance(base, (SymbolicTensor, KroneckerDelta)):\n            raise NotImplementedError(\"Contractions can only be optimized for \"", "new": "        elif isinstance(base, (Symbol, KroneckerDelta)):  # skip symbolic prefactor\n            continue\n        elif not isinstance(base, (SymbolicTensor, KroneckerDelta)):\n            raise NotImplementedError(\"Contractions can only be optimized for \""},
+ {"id": "c16-limits-swapped", "prop": "C16", "file": _OC, "old": "        target_indices=target_indices, max_itmd_dim=max_itmd_dim,\n        max_n_simultaneous_contracted=max_n_simultaneous_contracted\n    )\n    # go through", "new": "        target_indices=target_indices, max_itmd_dim=max_n_simultaneous_contracted,\n        max_n_simultaneous_contracted=max_itmd_dim\n    )\n    # go through"},
+ {"id": "c16-single-object-canonical-target", "prop": "C16", "file": _OC, "old": "                            names=tuple(relevant_obj_names),\n                            term_target_indices=target_indices)]", "new": "                            names=tuple(relevant_obj_names),\n                            term_target_indices=term.target)]"},
+ {"id": "c16-unopt-drops-spin", "prop": "C16", "file": _OC, "old": "        target_indices = tuple(get_symbols(target_indices, target_spin))\n    # extract the relevant part of the term", "new": "        target_indices = tuple(get_symbols(target_indices))\n    # extract the relevant part of the term"},
+]
+HARMLESS += [
+ {"id": "h-c16-rank-ties-last", "prop": "C16", "file": _OC, "old": "if optimal_scaling is None or scaling < optimal_scaling:", "new": "if optimal_scaling is None or scaling <= optimal_scaling:"},
+ {"id": "h-c16-rank-max-once", "prop": "C16", "file": _OC, "old": "            scaling.extend(\n                [max(comp_values), comp_values.count(max(comp_values))]\n            )", "new": "            comp_max = max(comp_values)\n            scaling.extend([comp_max, comp_values.count(comp_max)])"},
+]
